@@ -231,6 +231,63 @@ pub fn check_unary(rep: &mut Report, orc: &mut Oracle, a: &Moc, target: u8, kind
   ok
 }
 
+/// Operators fed by another lazy operator (degrade / not of a leaf) rather than by a leaf:
+/// "whatever kind of source feeds it".  The oracle operand is the reference result of the feeder.
+fn lazy_fed<T: Idx, QQ: Inst<T>>(op: &str, feeder: u8, t: u8, a: &Moc, b: &Moc, ka: u64, kb: u64, fed_left: bool) -> Result<(u8, Vec<(u64, u64)>), String> {
+  let ma: RangeMOC<T, QQ> = to_range_moc(a);
+  let mb: RangeMOC<T, QQ> = to_range_moc(b);
+  let op2 = op.to_string();
+  catch(move || {
+    let fa: DynIt<T, QQ> = if feeder == 0 { DynIt::new(leaf(ka, &ma).degrade(t)) } else { DynIt::new(leaf(ka, &ma).not()) };
+    let lb = leaf(kb, &mb);
+    let (l, r) = if fed_left { (fa, lb) } else { (lb, fa) };
+    match op2.as_str() {
+      "and" => { let it = l.and(r); (it.depth_max(), ranges_of(it)) }
+      "or" => { let it = l.or(r); (it.depth_max(), ranges_of(it)) }
+      "xor" => { let it = l.xor(r); (it.depth_max(), ranges_of(it)) }
+      _ => { let it = l.minus(r); (it.depth_max(), ranges_of(it)) }
+    }
+  })
+}
+
+pub fn check_fed(rep: &mut Report, orc: &mut Oracle, a: &Moc, b: &Moc, t: u8, ka: u64, kb: u64) -> bool {
+  let mut ok = true;
+  for feeder in [0u8, 1u8] {
+    let fcase = if feeder == 0 { format!("DEG {} {} {} {}", a.q.c(), a.w, a.dr(), t) } else { format!("NOT {} {} {}", a.q.c(), a.w, a.dr()) };
+    let fans = orc.ask(&fcase);
+    let fa = match parse_ok_moc(&fans) {
+      Some((d, r)) => Moc { q: a.q, w: a.w, d, r },
+      None => return false,
+    };
+    for op in OPS {
+      for fed_left in [true, false] {
+        let (l, r) = if fed_left { (&fa, b) } else { (b, &fa) };
+        let case = format!("OP2 {} {} {} {} {}", op, a.q.c(), a.w, l.dr(), r.dr());
+        let ans = orc.ask(&case);
+        let exp = match parse_ok_moc(&ans) {
+          Some(x) => x,
+          None => return false,
+        };
+        let got = dispatch!(a.q, a.w, |T, QQ| lazy_fed::<T, QQ>(op, feeder, t, a, b, ka, kb, fed_left));
+        rep.evaluations += 1;
+        rep.count("op2-fed-by-lazy-operator");
+        if got.as_ref().ok() != Some(&exp) {
+          ok = false;
+          let obs = match &got {
+            Ok((d, rr)) => format!("OK {} {}", d, ranges_str(rr)),
+            Err(p) => p.clone(),
+          };
+          rep.violation(
+            &format!("lazy {} fed by lazy {} differs from the set-theoretic result", op, if feeder == 0 { "degrade" } else { "not" }),
+            &format!("{} # feeder={} of {}[{}] (target {}) on the {} side, other operand {}", case, if feeder == 0 { "degrade" } else { "not" }, SRC_NAMES[ka as usize], a.dr(), t, if fed_left { "left" } else { "right" }, SRC_NAMES[kb as usize]),
+            &obs, &ans, "C01_binary_ops_set_semantics + C01_degrade_set_semantics / C01_complement_set_semantics");
+        }
+      }
+    }
+  }
+  ok
+}
+
 fn all_kind_pairs() -> Vec<(u64, u64)> {
   let mut v = Vec::new();
   for i in 0..N_SRC_KINDS {
@@ -348,7 +405,13 @@ pub fn run(ctx: &Ctx) -> Report {
       first_fail = Some((a.clone(), b.clone()));
     }
     let t = rng.range(0, md as u64) as u8;
-    check_unary(&mut rep, &mut orc, &a, t, rng.below(N_SRC_KINDS));
+    let ku = rng.below(N_SRC_KINDS);
+    check_unary(&mut rep, &mut orc, &a, t, ku);
+    if i % 4 == 0 {
+      let tf = rng.range(0, a.d as u64) as u8;
+      let (ka, kb) = (rng.below(N_SRC_KINDS), rng.below(N_SRC_KINDS));
+      check_fed(&mut rep, &mut orc, &a, &b, tf, ka, kb);
+    }
     rep.count(&format!("random:{}{}", q.c(), w));
   }
   // shrink the first failing pair and report it first
